@@ -8,9 +8,9 @@ one() {
   for v in A B C; do
     sd=$ROOT/$id/SEED/$v; [ -f $sd/patch.diff ] || continue
     out=$(tools/seedcheck.sh $id $sd 2>&1)
-    suite=$(echo "$out" | grep -c "^FAIL\|^--- FAIL" )
-    res=$(echo "$out" | grep RESULT)
-    key=$(echo "$out" | grep "key=" | head -2 | cut -c1-220 | tr '\n' ' ')
+    suite=$(echo "$out" | grep -a -c "^FAIL\|^--- FAIL" )
+    res=$(echo "$out" | grep -a RESULT)
+    key=$(echo "$out" | grep -a "key=" | head -2 | cut -c1-220 | tr '\n' ' ')
     echo "$id/$v $res suite_or_demo_fail_lines=$suite :: $key"
   done
 }
